@@ -48,7 +48,11 @@ prop("C14", [_lazy("state", "rule_ctx1"), _lazy("state", "rule_ctx2"), _lazy("st
              _lazy("state", "rule_shared1"),
              _lazy("naming", "rule_uniq4"),
              _lazy("emit", "rule_dup1"),
-             _lazy("misc", "rule_gencall1")],
+             _lazy("misc", "rule_gencall1"),
+             _lazy("misc", "rule_cacheinv1"),
+             _lazy("cli_fail", "rule_atom"),
+             _lazy("misc2", "rule_proc1"),
+             _lazy("misc", "rule_eqhash1")],
      "Static decision of the clauses of C14 that are visible in code shape: the thread-local reference context is "
      "saved/restored on every exit and only used through `with` (CTX-1..3); no function reachable from a library "
      "entry point writes module-level, class-level, closure or default-argument state (GLOB-1, effect summaries "
@@ -61,7 +65,9 @@ prop("C15", [_lazy("state", "rule_tls1"), _lazy("state", "rule_glob1"), _lazy("s
              _lazy("state", "rule_thread1"), _lazy("state", "rule_shared1"),
              _lazy("misc", "rule_constesc1"),
              _lazy("misc", "rule_lock1"),
-             _lazy("misc", "rule_tmp1")],
+             _lazy("misc", "rule_tmp1"),
+             _lazy("misc2", "rule_proc1"),
+             _lazy("misc2", "rule_iterself1")],
      "Static decision of: every read of a threading.local attribute is safe in a thread that never wrote it "
      "(TLS-1: defined by a threading.local subclass, or dominated by a write in the same function; an import-time "
      "assignment does not count); independent pipelines share no written state (GLOB-1, CACHE-1).",
@@ -77,7 +83,10 @@ prop("C17", [_lazy("cli_fail", "rule_atom"), _lazy("cli_fail", "rule_exc1"), _la
              _lazy("misc", "rule_tmp1"),
              _lazy("misc", "rule_load4"),
              _lazy("cli_flow", "rule_argval1"),
-             _lazy("misc", "rule_iter2")],
+             _lazy("misc", "rule_iter2"),
+             _lazy("naming", "rule_optfwd1"),
+             _lazy("misc2", "rule_encerr1"),
+             _lazy("misc2", "rule_lookup2")],
      "Static decision of: every file-mutating call reachable from main is classified, and each write-capable one "
      "is a `with` block whose body only writes locals defined before the open, with no call that can fail "
      "reachable afterwards in that function or, after it returns, in its callers up to main (ATOM-1/2, CFG "
@@ -95,7 +104,9 @@ prop("C05", [_lazy("registry", "rule_reg12"), _lazy("registry", "rule_reg3"), _l
              _lazy("misc", "rule_eqhash1"),
              _lazy("misc", "rule_convnum1"),
              _lazy("cli_flow", "rule_optflow7"),
-             _lazy("state", "rule_glob1_registry")],
+             _lazy("state", "rule_glob1_registry"),
+             _lazy("misc2", "rule_dsu1"),
+             _lazy("misc2", "rule_eqcyc1")],
      "Static decision of: the registry mapping is written only by ModelRegistry, and every call that removes a "
      "model is, in the same loop iteration and unconditionally, followed by snapshot loops retargeting all pointers "
      "and re-parenting all child references to the one replacement, which is registered after the loop and built "
@@ -114,7 +125,9 @@ prop("C09", [_lazy("strtypes", "rule_det1"), _lazy("strtypes", "rule_det2"), _la
              _lazy("strtypes", "rule_rt1"), _lazy("cli_flow", "rule_regdeliv1"),
              _lazy("infer", "rule_widen1"),
              _lazy("strtypes", "rule_det7"),
-             _lazy("strtypes", "rule_regdup1")],
+             _lazy("strtypes", "rule_regdup1"),
+             _lazy("misc", "rule_cacheinv1"),
+             _lazy("misc2", "rule_date1")],
      "Static decision of the protocol clauses of C09: a registry class is returned as the detected type only where "
      "a completed call of that class's own parser on the unmodified input dominates the return and the rejecting "
      "handler cannot fall through (DET-1); the registry iterates its registration list, which is only appended to "
@@ -129,7 +142,9 @@ prop("C09", [_lazy("strtypes", "rule_det1"), _lazy("strtypes", "rule_det2"), _la
 
 prop("C06", [_lazy("order", "rule_ord1"), _lazy("order", "rule_ndet1"),
              _lazy("misc", "rule_assert1"),
-             _lazy("misc", "rule_eqhash1")],
+             _lazy("misc", "rule_eqhash1"),
+             _lazy("state", "rule_glob1"),
+             _lazy("infer", "rule_memo1")],
      "Static decision, for every input and every hash seed: each place where an unordered collection (set, "
      "frozenset, set algebra, set-typed attribute or return value) is iterated, unpacked, joined or converted to a "
      "sequence is found (exposure sites) and must be discharged: the sequence flows only into order-neutral "
@@ -158,7 +173,9 @@ prop("C13", [_lazy("dictkeys", "rule_rx1"), _lazy("dictkeys", "rule_dk"), _lazy(
      "newline (Python regex semantics of `$` with match())")
 
 prop("C19", [_lazy("header", "rule_inj4"), _lazy("header", "rule_shape"), _lazy("cli_fail", "rule_enc1"),
-             _lazy("misc", "rule_argp1")],
+             _lazy("misc", "rule_argp1"),
+             _lazy("misc2", "rule_encerr1"),
+             _lazy("misc2", "rule_sig1")],
      "Static decision for every argv / preamble text of: each run-time component of the header is located in its "
      "lexical context (raw triple-quoted literal) and must either be a fixed-alphabet value or pass, as its LAST "
      "transformation, a replacement of the closing quote run by quote-free text, with non-quote neighbours and a "
@@ -182,7 +199,10 @@ prop("C16", [_lazy("cli_flow", "rule_optflow1"), _lazy("cli_flow", "rule_optflow
              _lazy("misc", "rule_argp1"),
              _lazy("misc", "rule_iter2"),
              _lazy("cli_flow", "rule_sibconv1"),
-             _lazy("cli_flow", "rule_optflow7")],
+             _lazy("cli_flow", "rule_optflow7"),
+             _lazy("misc2", "rule_encerr1"),
+             _lazy("misc2", "rule_load5"),
+             _lazy("misc2", "rule_runloop1")],
      "Static decision of: every add_argument destination is read from the namespace and nothing else is "
      "(OPTFLOW-1); each option's value flows (forward taint through Cli's methods, attribute cells, dict keys, "
      "called callables) to its documented library parameter, not into another option's slot, and no hop of that "
@@ -191,9 +211,9 @@ prop("C16", [_lazy("cli_flow", "rule_optflow1"), _lazy("cli_flow", "rule_optflow
      "static type of what reaches them (OPTFLOW-4); run() executes generate -> process_meta_data -> merge_models "
      "-> generate_names -> layout -> generate_code once each, in dominance order, and writes the very local it "
      "would return (STAGE-1, SAME-1); samples are concatenated in argument order, every loop iteration reaches the "
-     "accumulation, no order-changing operation is applied (SEQ-1).",
-     "dict_lookup / iter_json_file semantics on data; equality of CLI text and library text on concrete inputs; "
-     "the relative order of -m and the deprecated -l samples (argparse separates them)")
+     "accumulation, no order-changing operation is applied, -m and -l append to one destination (SEQ-1); the loaders "
+     "hand on the document as the parser reads it (LOAD-5) and every model name goes through both stages (RUNLOOP-1).",
+     "dict_lookup / iter_json_file semantics on data; equality of CLI text and library text on concrete inputs")
 
 prop("C18", [_lazy("converters", "rule_tok1"), _lazy("converters", "rule_tok2"), _lazy("converters", "rule_tok3"),
              _lazy("converters", "rule_null1"), _lazy("state", "rule_glob1_converters"), _lazy("emit", "rule_sib1"),
@@ -219,7 +239,8 @@ prop("C10", [_lazy("emit", "rule_lim"), _lazy("emit", "rule_inj3"), _lazy("emit"
              _lazy("emit", "rule_inj5"), _lazy("infer", "rule_opt"),
              _lazy("infer", "rule_memo1"),
              _lazy("misc", "rule_memokey1"),
-             _lazy("emit", "rule_annot1")],
+             _lazy("emit", "rule_annot1"),
+             _lazy("infer", "rule_val1")],
      "Static decision of: every comparison of a literal count with MAX_LITERALS, of a member length with "
      "MAX_STRING_LENGTH and of the member count with the configured maximum flips exactly at the documented "
      "boundary (evaluated at limit-1, limit, limit+1 after normalisation) and compares the size of ONE collection; "
@@ -236,7 +257,8 @@ prop("C11", [_lazy("emit", "rule_inj2"), _lazy("emit", "rule_inj5"), _lazy("emit
              _lazy("imports", "rule_shadow2"), _lazy("naming", "rule_label2"), _lazy("naming", "rule_label5"),
              _lazy("naming", "rule_uniq4"),
              _lazy("naming", "rule_label6"),
-             _lazy("misc", "rule_gencall1")],
+             _lazy("misc", "rule_gencall1"),
+             _lazy("misc2", "rule_keytruth1")],
      "Static decision of: every use of the original key in the field_data family is a comparison, a label "
      "conversion, a container display (rendered by repr) or an exact escaper in code context (INJ-2); on every "
      "feasible path of each generator the original key is attached and rendered whenever the name differs (and "
@@ -257,7 +279,10 @@ prop("C03", [_lazy("imports", "rule_imp1"), _lazy("imports", "rule_imp2"), _lazy
              _lazy("misc", "rule_empty1"),
              _lazy("naming", "rule_uniq4"),
              _lazy("naming", "rule_label6"),
-             _lazy("misc", "rule_gencall1")],
+             _lazy("misc", "rule_gencall1"),
+             _lazy("state", "rule_cache2"),
+             _lazy("misc2", "rule_sig1"),
+             _lazy("registry", "rule_reg12")],
      "Static decision of: every import tuple a generator can emit (symbolic components expanded over the class "
      "tables) names an existing module and a name bound at its top level, read from the installed sources "
      "(IMP-1); every identifier in an emitted code fragment (templates, default/factory/converter strings, bases) "
@@ -279,7 +304,8 @@ prop("C04", [_lazy("emit", "rule_sib1"), _lazy("emit", "rule_sib2"), _lazy("emit
              _lazy("emit", "rule_annot1"),
              _lazy("naming", "rule_uniq4"),
              _lazy("naming", "rule_label6"),
-             _lazy("misc", "rule_gencall1")],
+             _lazy("misc", "rule_gencall1"),
+             _lazy("misc2", "rule_keytruth1")],
      "Static decision of: on every feasible path of each framework's field_data (path enumeration with a small "
      "abstract state for the kwargs dict) an optional list/dict/scalar field carries default list/dict/None to "
      "the emitted body and a required field carries none; the optional flag is the sort_fields group, decided by "
@@ -296,7 +322,10 @@ prop("C12", [_lazy("layout", "rule_lay1"), _lazy("layout", "rule_lay2"), _lazy("
              _lazy("naming", "rule_uniq3"),
              _lazy("naming", "rule_uniq4"),
              _lazy("misc", "rule_gencall1"),
-             _lazy("cli_flow", "rule_reset1_structure")],
+             _lazy("cli_flow", "rule_reset1_structure"),
+             _lazy("registry", "rule_reg12"),
+             _lazy("misc2", "rule_keytruth1"),
+             _lazy("misc2", "rule_lay4")],
      "Static decision of: in both layout functions the table of structure entries is built once up front and never "
      "rewritten in the placement loop, and on every non-raising path through the per-model loop (path enumeration; "
      "try/except counted once because insert_before raises before inserting) the current model's entry is inserted "
@@ -318,7 +347,9 @@ prop("C01", [_lazy("infer", "rule_opt"), _lazy("infer", "rule_opt2"), _lazy("inf
              _lazy("misc", "rule_gencall1"),
              _lazy("emit", "rule_label1"),
              _lazy("emit", "rule_inj5"),
-             _lazy("naming", "rule_uniq2")],
+             _lazy("naming", "rule_uniq2"),
+             _lazy("emit", "rule_inj3"),
+             _lazy("misc", "rule_cacheinv1")],
      "Static decision of the optionality / completeness clauses of C01: on every feasible path of the per-field merge "
      "loop (path enumeration with the equality axioms of EQ-1/NF-3) the value left in the merged set is optional "
      "whenever the stored or the incoming side was optional or the field is new in a later set, and the stored type "
@@ -334,7 +365,10 @@ prop("C02", [_lazy("infer", "rule_opt"), _lazy("infer", "rule_nulldet"), _lazy("
              _lazy("infer", "rule_nf6"), _lazy("strtypes", "rule_det6"),
              _lazy("infer", "rule_memo1"),
              _lazy("misc", "rule_memokey1"),
-             _lazy("emit", "rule_sib1")],
+             _lazy("emit", "rule_sib1"),
+             _lazy("misc2", "rule_encerr1"),
+             _lazy("misc2", "rule_date1"),
+             _lazy("misc2", "rule_load5")],
      "Static decision of: Optional is introduced in the merge only when justified (converse direction of the OPT "
      "table, OPT-4); Null is produced only under `value is None` and Unknown only under the emptiness test of the "
      "matching container (NULLDET-1); candidates are removed from a union only as documented (Unknown when another "
@@ -349,7 +383,9 @@ prop("C07", [_lazy("infer", "rule_opt"), _lazy("infer", "rule_eq1"), _lazy("emit
              _lazy("infer", "rule_nf6"), _lazy("infer", "rule_widen1"), _lazy("infer", "rule_memo1"),
              _lazy("misc", "rule_memokey1"),
              _lazy("naming", "rule_uniq5"),
-             _lazy("infer", "rule_opt2")],
+             _lazy("infer", "rule_opt2"),
+             _lazy("misc2", "rule_dsu1"),
+             _lazy("misc2", "rule_eqcyc1")],
      "Static decision of: the merge outcome's optionality is the same for mirrored inputs and the stored side is kept "
      "only on equality (OPT-5 on the OPT path table); equality of IR types is type-exact and order-insensitive "
      "(ComplexType compares the sorted MEMBER lists, StringLiteral compares sets) and caches are invalidated on "
@@ -363,12 +399,19 @@ prop("C08", [_lazy("infer", "rule_nf"), _lazy("infer", "rule_nf6"), _lazy("infer
              _lazy("infer", "rule_memo1"),
              _lazy("infer", "rule_nf9"),
              _lazy("infer", "rule_nf11"),
-             _lazy("misc", "rule_cacheinv1")],
+             _lazy("misc", "rule_cacheinv1"),
+             _lazy("nf4", "rule_nf4")],
      "Static decision of: every DUnion construction in the inference code is followed by a size test on the "
      "constructed union that replaces a singleton by its member (or is re-simplified by the optimize_type pass), the "
      "final union is built only from a non-empty candidate list, Optional never wraps Optional (NF-1/2/3); merged "
      "models are simplified at once and all models once more (NF-6, needed because one pass is not idempotent); "
      "hash strings / sorted views are invalidated on every content change so de-duplication sees current content "
-     "(EQ-1); Unknown and Null leave the final candidate list and Null becomes Optional (WIDEN-1, OPT-3).",
-     "int/float absorption, str absorption and flatness after replace on concrete types; idempotence on arbitrary "
-     "types (a single optimize_type pass is known not to be idempotent for Optional[Union[..]] members)")
+     "(EQ-1); Unknown and Null leave the final candidate list and Null becomes Optional (WIDEN-1, OPT-3). NF-4: "
+     "optimize_type, _optimize_union, _union_members and the DUnion constructor are evaluated from their source over "
+     "kind-level abstract values for every union of up to three of 39 (thorough: 54) member types of depth <= 2 - the "
+     "property's own quantifier: no pass raises, the result of ONE pass is in normal form at every level (flat, no "
+     "duplicate, no single member, no null / Optional member, not int with float, not str with literals or "
+     "pseudo-types, Unknown only alone), a second pass returns the same type, also after two pointed-to models "
+     "have become one; the constructor flattens unions nested at any depth.",
+     "types outside the universe (more than three members, deeper nesting); the content of field sets (decided per "
+     "level); the summarised callees: merge_field_sets, registry.resolve, StringLiteral.__init__, get_hash_string")
